@@ -188,3 +188,11 @@ def lec3(**over):
              Stabs={False, True})
     d.update(over)
     return fam(**d)
+
+
+def twodigit_lecturers(**over):
+    """eleven lecturers / eleven projects (two-digit lecturer numbers), quotas of 10 and more"""
+    d = dict(NA=3, NS=2, NP=11, NL=11, MaxLen=2, TieMode='all', AllowEmpty=True, PQ={(0, 1), (0, 10), (10, 12)},
+             LQ={(0, 1, 2), (0, 10, 11), (10, 10, 12)}, LecMapMode='mono', Sided={'one', 'two'}, OrderMode='all', Stabs={False}, PCs={False})
+    d.update(over)
+    return fam(**d)
